@@ -39,7 +39,7 @@ is_6531_local (const char *start, const char *end)
     int qpair = 0;
     int quote = 0;
     int ch;
-    int prev = 0; /* byte index of the previous character */
+    size_t prev = 0; /* byte index of the previous character */
     utf8_decode_t u;
 
 
@@ -85,7 +85,7 @@ is_6531_local (const char *start, const char *end)
             } break;
             case '.': {
                 /* '.' is allowed after an atom and only once */
-                int pos = utf8_decode_at_byte(&u);
+                size_t pos = utf8_decode_at_byte(&u);
                 if (pos >= 1 && start[prev] == '.')
                     return inverse(EEAV_LPART_TOO_MANY_DOTS);
                 if (pos == 0 || (start + pos + 1) == end)
